@@ -10,7 +10,7 @@ from ..core import product
 
 DT = pd.Timestamp('2020-03-02 21:00:00', tz='UTC')
 WEIGHTS = ['0', '0.1', '1/3', '0.5', '1', '2.5']
-ASKS = ['0.37', '1', '9.99', '101.5', '2345.67']
+ASKS = ['0.37', '1', '9.99', '33.3349', '101.5', '2345.67']      # 33.3349: sub-cent digits (adjusted prices)
 EQUITIES = ['1', '999.99', '10007', '1000000.01']
 BUFFERS = ['0', '0.05', '0.5', '1']
 RATES = ['0', '0.001', '0.3']
@@ -220,10 +220,14 @@ def run(tier, res, is_known):
                         'estimated fee = rate x allocation (percentage model, quantity-independent)']
     product(group, its, res, is_known, label='sizing grid', sample_every=397)
     product(refusal, refusal_items(), res, is_known, label='refusal grid')
+    product(wiring_refusal, [(via, bad) for via in ('qts', 'session') for bad in [-0.01, 1.01, -1, 2]], res, is_known,
+            label='refusals through the system wiring')
 
 
 def replay(case):
     from qstrader.portcon.order_sizer.dollar_weighted import DollarWeightedCashBufferedOrderSizer
+    if case['kind'] == 'wiring':
+        return wiring_refusal(tuple(case['item']))['viols']
     if case['kind'] == 'refusal':
         return refusal(tuple(case['item']))['viols']
     dh = PriceStub()
@@ -231,3 +235,35 @@ def replay(case):
     sizer = DollarWeightedCashBufferedOrderSizer(broker, 'p', dh, cash_buffer_percentage=float(fw(case['buffer'])))
     f, _, _ = check_call(sizer, dh, case['equity'], case['buffer'], case['rate'], case['weights'], case['asks'])
     return f
+
+
+def wiring_refusal(item):
+    """the same invalid sizing parameter given through QuantTradingSystem / BacktestTradingSession must be refused too"""
+    import pandas as pd
+    from qstrader.system.qts import QuantTradingSystem
+    from qstrader.trading.backtest import BacktestTradingSession
+    from qstrader.asset.universe.static import StaticUniverse
+    from qstrader.alpha_model.fixed_signals import FixedSignalsAlphaModel
+    via, bad = item
+    dh = PriceStub()
+    dh.ask = {'EQ:AAA': 9.99}
+    uni = StaticUniverse(['EQ:AAA'])
+    alpha = FixedSignalsAlphaModel({'EQ:AAA': 1.0})
+    viols = []
+    case = {'kind': 'wiring', 'item': list(item)}
+    kw = dict(long_only=True, cash_buffer_percentage=bad)
+    try:
+        if via == 'qts':
+            broker = make_broker('10007', '0.001', dh)
+            QuantTradingSystem(uni, broker, 'p', dh, alpha, **kw)
+        else:
+            t0 = pd.Timestamp('2020-03-02 14:30:00', tz='UTC')
+            BacktestTradingSession(t0, t0 + pd.Timedelta(days=3), uni, alpha, rebalance='daily', data_handler=dh, **kw)
+        viols.append({'clause': 'C10.refusal_missing', 'signature': 'wiring:%s' % via, 'case': case,
+                      'detail': {'via': via, 'value': bad, 'what': 'invalid sizing parameter accepted'}})
+    except ValueError:
+        pass
+    except Exception as e:  # noqa
+        viols.append({'clause': 'C10.refusal_type', 'signature': 'wiring:%s' % via, 'case': case,
+                      'detail': {'via': via, 'value': bad, 'error': repr(e)}})
+    return {'viols': viols, 'execs': 1, 'evals': 1, 'nontrivial': True, 'outcome': ('wiring', via, bad)}
